@@ -15,6 +15,7 @@ func init() {
 	register("C17", propInfo{
 		Explanation: "Decided for the portable implementation, by a shape certificate on the SSA form of maskGo (values and natural loops, no execution; a helper outside the reference tree that finishes the job is followed): (i) the 64-bit key is uint64(key)<<32|uint64(key) of the key parameter; (ii) every word loop has one loop-carried slice b', is entered only under len(b') >= N with N ≡ 0 (mod 4), consists of LittleEndian load/xor/store triples over equal constant windows of b' that tile [0,N) without gap or overlap, uses the replicated key for 64-bit and key for 32-bit words, and continues with b'[N:]; (iii) one byte loop runs an index over 0..len(b)-1 of the slice value every word loop flows into, XORs b[i] with byte(k) and continues with k rotated right by 8, k starting at the key parameter, and nothing follows it; (iv) the loop-carried k is returned and there is no other store or call. From (i)–(iv) the start of b stays ≡ 0 (mod 4) relative to the original start through all word loops, a little-endian word XOR with the replicated key XORs byte j with key byte j mod 4, and the returned key is the input rotated by 8·(len mod 4): the RFC 6455 §5.3 transform, chunk-composable. Callers thread the returned key; mask() forwards to maskGo on every analysed architecture; the assembly is unreachable.",
 		Decides: []string{
+			"C17.hdr (= C03.hdr): the key handed to the transform is read right behind the length that was read",
 			"C17.shape: certificate (i)–(iv) on maskGo",
 			"C17.thread: every mask call stores its result back where its key came from (msgReader.maskKey; loop-carried key in writeFramePayload starting at writeHeader.maskKey) or masks a whole control payload once",
 			"C17.slice: the slice masked is the slice just filled (read side: buffer[:n] of readFramePayload; write side: writeBuf[i:Buffered()] with i = Buffered() before the Write)",
